@@ -9,8 +9,7 @@
  *   - timed waits additionally time out when vp_timeout_cfg says so (per-query constant: j-th timed wait of the run).  */
 #include "vp_rt.h"
 
-extern int vp_pre_enabled, vp_pre_ran, vp_pre_inside;
-void vp_run_pending_unit(void);
+int vp_sched_inner(void); int vp_sched_active(void); int vp_yield_to_pending(void);
 void vp_sync_point(void); /* a schedule point of the sequentialised schedule (defined in vp_rt.c) */
 int vp_timeout_at = -1, vp_timed_seen;
 uint64_t vp_clock_now;
@@ -37,21 +36,17 @@ int pthread_mutex_init(uint64_t m, uint64_t attr) { vp_st(m, 8, 0); return 0; }
 int pthread_mutex_destroy(uint64_t m) { VP_ASSERT(vp_ld(m, 8) == 0, "mutex destroyed while locked"); return 0; }
 
 static void vp_block_on_cv(uint64_t mutex_addr) {
-#ifdef VP_PREEMPT
-  if (vp_pre_inside) { VP_ASSUME(0); return; }
   VP_ASSERT(vp_ld(mutex_addr, 8) == 1, "condition variable wait without holding the mutex");
   vp_st(mutex_addr, 8, 0);
-  if (vp_pre_enabled && !vp_pre_ran) {
-    vp_run_pending_unit();
-  } else {
-    VP_FAIL("deadlock: a thread blocks on a condition variable and nobody is left to wake it (lost wake-up)");
+  if (!vp_yield_to_pending()) {
+    /* nobody else can run any more */
+    if (vp_sched_inner()) { VP_ASSUME(0); return; }   /* an inner unit cannot complete underneath the one it preempted: infeasible nesting */
+    if (vp_sched_active()) VP_FAIL("deadlock: a thread blocks on a condition variable and nobody is left to wake it (lost wake-up)");
+    else VP_FAIL("VP-BOUND: blocking wait in a module built without the sequentialised scheduler");
     VP_ASSUME(0);
   }
   VP_ASSUME(vp_ld(mutex_addr, 8) == 0);
   vp_st(mutex_addr, 8, 1);
-#else
-  VP_FAIL("VP-BOUND: blocking wait in a module built without the sequentialised scheduler");
-#endif
 }
 /* std::condition_variable */
 void _ZNSt18condition_variableC1Ev(uint64_t cv) { vp_st(cv, 8, 0); }
@@ -88,3 +83,43 @@ void _ZSt20__throw_system_errori(int e) { VP_FAIL("std::__throw_system_error"); 
 /* model of yaclib::detail::Spinlock (harness/model_include): see the comment there */
 void vp_spin_lock(uint64_t w, uint32_t sz) { vp_sync_point(); VP_ASSUME(vp_ld(w, (int)sz) == 0); vp_st(w, (int)sz, 1); }
 void vp_spin_unlock(uint64_t w, uint32_t sz) { VP_ASSERT(vp_ld(w, (int)sz) == 1, "unlock of a spinlock that is not locked"); vp_st(w, (int)sz, 0); vp_sync_point(); }
+
+/* ---- std::thread (sequentialised): starting a thread registers its body as work of the scenario; the harness names which pending
+ * unit runs it (vp_thread_body(n)); join blocks = lets pending units run, and fails if the thread can never finish. */
+#define VP_MAXTHREADS 4
+uint64_t vp_thr_state[VP_MAXTHREADS]; int vp_thr_n, vp_thr_done[VP_MAXTHREADS];
+void vp_vcall_void(uint64_t obj, uint32_t slot); /* generated: virtual call obj->vtable[slot](obj) for void(ptr) slots */
+/* std::thread::_M_start_thread(unique_ptr<_State>, void (*)()) : this = &thread::_M_id */
+void _ZNSt6thread15_M_start_threadESt10unique_ptrINS_6_StateESt14default_deleteIS1_EEPFvvE(uint64_t self, uint64_t uptr, uint64_t dep) {
+  VP_ASSERT(vp_thr_n < VP_MAXTHREADS, "VP-BOUND: more std::threads than modelled");
+  vp_thr_state[vp_thr_n] = vp_ld(uptr, 8);
+  vp_st(uptr, 8, 0);                       /* ownership of the state moves to the new thread */
+  vp_st(self, 8, (uint64_t)vp_thr_n + 1);  /* thread::id */
+  vp_thr_n++;
+  vp_sync_point();
+}
+void vp_thread_body(uint32_t n) {          /* called by the unit that stands for thread n */
+  uint64_t st = vp_thr_state[n];
+  VP_ASSERT(st != 0, "harness: thread body run before the thread was started");
+  vp_vcall_void(st, 2);                    /* _State::_M_run() */
+  vp_vcall_void(st, 1);                    /* delete state (deleting destructor) */
+  vp_thr_done[n] = 1;
+  vp_sync_point();
+}
+void _ZNSt6thread4joinEv(uint64_t self) {
+  uint64_t id = vp_ld(self, 8);
+  VP_ASSERT(id != 0, "join of a non-joinable thread");
+  vp_sync_point();
+  while (!vp_thr_done[id - 1]) {
+    if (!vp_yield_to_pending()) {
+      if (vp_sched_inner()) { VP_ASSUME(0); return; }
+      VP_FAIL("deadlock: join waits for a thread that can never finish");
+      VP_ASSUME(0);
+    }
+  }
+  vp_st(self, 8, 0);
+}
+void _ZNSt6thread6detachEv(uint64_t self) { vp_st(self, 8, 0); }
+uint32_t _ZNSt6thread20hardware_concurrencyEv(void) { return 2; }
+void _ZNSt6thread6_StateD2Ev(uint64_t self) {}
+void _ZNSt6thread6_StateD1Ev(uint64_t self) {}
